@@ -2,5 +2,5 @@ INIT Init
 NEXT Next
 INVARIANT Inv
 CONSTANTS
- Encodings = {1, 2, 3, 4, 5, 6, 7, 8, 9, 10, 11, 12}
+ Encodings = {1, 2, 3, 4, 5, 6, 7, 8, 9, 10, 11, 12, 13, 14, 15, 16}
 CHECK_DEADLOCK FALSE
